@@ -514,7 +514,7 @@ func (t *FnTrans) applyModifies(ct *Contract, env *Env) {
 					t.set(comp, ite(cond, t.freshVersion(comp, "@m"), old))
 				} else {
 					fv := t.newConst(comp+"@mv", arrayElemSort(sortS))
-					if T, ok := t.compT[comp]; ok && !strings.HasPrefix(comp, "E.") {
+					if T, ok := t.compT[comp]; ok && !strings.HasPrefix(comp, "E.") && !strings.HasPrefix(comp, "M.") {
 						t.assume(t.rangeFact(fv, T))
 					}
 					t.set(comp, app("store", old, ref, ite(cond, fv, app("select", old, ref))))
@@ -525,7 +525,7 @@ func (t *FnTrans) applyModifies(ct *Contract, env *Env) {
 				t.set(comp, t.freshVersion(comp, "@m"))
 			} else {
 				fv := t.newConst(comp+"@mv", arrayElemSort(sortS))
-				if T, ok := t.compT[comp]; ok && !strings.HasPrefix(comp, "E.") {
+				if T, ok := t.compT[comp]; ok && !strings.HasPrefix(comp, "E.") && !strings.HasPrefix(comp, "M.") {
 					t.assume(t.rangeFact(fv, T))
 				} else if strings.HasPrefix(comp, "E.") {
 					if T, ok := t.compT[comp]; ok {
@@ -553,6 +553,10 @@ func (t *FnTrans) modItem(x *Expr, env *Env, f func(comp, sort, ref string)) {
 		t.havocAll = true
 		return
 	case x.Op == "id" && x.Name == "nothing":
+		return
+	case x.Op == "id" && x.Name == "chans":
+		// the closed state of channels
+		f("CH.closed", "(Array Int Bool)", "")
 		return
 	case x.Op == "call" && x.Name == "elems":
 		v := env.eval(x.Args[0])
